@@ -37,7 +37,7 @@ PARTIAL = ("Cartesian maps: the reader is characterised exactly, the writer is p
            "the two anchor cells hold data; the full / tips-up WRITE direction for complete maps is correspondence-only "
            "(exhaustive-small + generated) and the hole cases are the known findings; blueprints: stacking, link resolution, placement are proved about the "
            "model, component construction / materials / thermal expansion of linked dimensions / composition after material "
-           "modifications are compared against an independent Python evaluation of the document, not proved")
+           "modifications and custom isotopics (all three input forms, shared vectors, Custom and library materials) are compared against an independent Python evaluation of the document, not proved")
 ASSUMPTIONS = [
     "text splitting (str.strip/splitlines/split) and fixed-width formatting of AsciiMap.__str__ are parameters of the "
     "ascii-map model: tokens are non-empty and contain no whitespace",
@@ -1161,6 +1161,215 @@ def run_grids(ctx):
         grid_roundtrip(ctx, kind, None, {c: "P" for c in hex_cells(2) if hexdist(*c) in (0, 2)}, "rings-0-and-2-only")
 
 
+# =========================================================================== custom isotopics
+ISO_NUCS = ("U235", "U238", "ZR")
+
+
+def gen_iso_doc(rng):
+    """Blueprint documents whose fuel-like components take their composition from `custom isotopics`, SHARED between
+    components and blocks, in all three input forms, with and without `density`, on Custom and library (UZr) materials,
+    with material modifications on some (earlier-built) users of a shared vector."""
+    isos = {}
+    for name in rng.sample(["isoA", "isoB", "isoC"], rng.randint(1, 3)):
+        form = rng.choice(["mass fractions", "number fractions", "number densities"])
+        z = rng.choice([0.0, 0.0625, 0.125, 0.25])
+        e = rng.choice([0.125, 0.25, 0.375])
+        if form == "number densities":
+            scale = rng.choice([0.02, 0.03125, 0.05])
+            vals = {"U235": e * (1 - z) * scale, "U238": (1 - e) * (1 - z) * scale, "ZR": z * scale}
+            dens = None
+        else:
+            vals = {"U235": e * (1 - z), "U238": (1 - e) * (1 - z), "ZR": z}
+            dens = rng.choice([None, 10.0, 12.5, 15.75])
+        isos[name] = dict(form=form, vals=vals, density=dens)
+    names = list(isos)
+    blocks = {}
+    for bi in range(rng.randint(1, 3)):
+        comps = {}
+        for cn, od, mult in (("fuel", 0.75, 61.0), ("slug", 0.25, 7.0)):
+            if cn == "slug" and rng.random() < 0.4:
+                continue
+            mat = rng.choice(["UZr", "UZr", "Custom"])
+            tin = rng.choice([20.0, 25.0])
+            comps[cn] = dict(shape="Circle", material=mat, isotopics=rng.choice(names), Tinput=tin,
+                             Thot=tin if (mat == "Custom" or rng.random() < 0.5) else 600.0, id=0.0, od=od, mult=mult)
+        comps["coolant"] = dict(shape="DerivedShape", material="Sodium", Tinput=450.0, Thot=450.0)
+        comps["duct"] = dict(shape="Hexagon", material="HT9", Tinput=25.0, Thot=25.0, ip=14.0, op=14.5, mult=1.0)
+        blocks["fuel" if bi == 0 else f"fuel {bi}"] = comps
+    bnames = list(blocks)
+    nb = rng.randint(2, 4)
+    heights = [rng.randint(20, 160) / 4.0 for _ in range(nb)]
+    assems = {}
+    for ai in range(rng.randint(1, 3)):
+        bl = [rng.choice(bnames) for _ in range(nb)]
+        a = dict(specifier=SPECS[ai], blocks=bl, height=list(heights), mesh=[1] * nb, xs=["A"] * nb)
+        mm = {}
+        # modifications on the EARLIER blocks, placeholders on the later ones
+        def col(vals):
+            return [rng.choice(vals) if (k == 0 or rng.random() < 0.3) else "" for k in range(nb)]
+        if rng.random() < 0.8:
+            mm["U235_wt_frac"] = col([0.5, 0.0, 0.75])
+        if rng.random() < 0.4:
+            mm["ZR_wt_frac"] = col([0.0, 0.2])
+        if rng.random() < 0.5:
+            mm["by component"] = {"fuel": {rng.choice(["U235_wt_frac", "ZR_wt_frac"]): col([0.3, 0.0, 0.15])}}
+        for key, colv in mm.items():
+            for cvals in ([colv] if key != "by component" else list(colv["fuel"].values())):
+                for k, bname in enumerate(bl):
+                    if blocks[bname]["fuel"]["material"] != "UZr":
+                        cvals[k] = ""
+        if mm:
+            a["matmods"] = mm
+        assems[f"assem_{ai}"] = a
+    specs = [a["specifier"] for a in assems.values()]
+    contents = {c: rng.choice(specs) for c in hex_cells(1)}
+    for k, sp in enumerate(specs):
+        contents[hex_cells(1)[k]] = sp
+    return dict(isos=isos, blocks=blocks, assems=assems, contents=contents, geom="hex", symmetry="full", use_map=False)
+
+
+def iso_yaml(doc, reverse_assemblies=False):
+    out = ["custom isotopics:"]
+    for name, iso in doc["isos"].items():
+        out.append(f"    {name}:")
+        out.append(f"        input format: {iso['form']}")
+        if iso["density"] is not None:
+            out.append(f"        density: {iso['density']}")
+        for n, v in iso["vals"].items():
+            out.append(f"        {n}: {v!r}")
+    d2 = dict(doc)
+    if reverse_assemblies:
+        d2["assems"] = dict(reversed(list(doc["assems"].items())))
+    body = to_yaml(d2, None)
+    return body.replace("blocks:\n", "\n".join(out) + "\nblocks:\n", 1)
+
+
+def iso_massfracs(iso):
+    """Independent mass fractions of a custom isotopic vector from the numbers in the text."""
+    from armi.nucDirectory import nucDir
+    A = {n: nucDir.getAtomicWeight(n) for n in iso["vals"]}
+    if iso["form"] == "mass fractions":
+        return dict(iso["vals"])
+    tot = sum(v * A[n] for n, v in iso["vals"].items())
+    return {n: v * A[n] / tot for n, v in iso["vals"].items()}
+
+
+def group3(mf):
+    return {"U235": mf.get("U235", 0.0), "U238": mf.get("U238", 0.0),
+            "ZR": sum(v for n, v in mf.items() if n.startswith("ZR"))}
+
+
+def expected_iso_composition(doc, ad, k, bt, cn):
+    cd = doc["blocks"][bt][cn]
+    base = iso_massfracs(doc["isos"][cd["isotopics"]])
+    mods = {m: v for m, v in mods_for(ad, k, cn).items() if m in ("U235_wt_frac", "ZR_wt_frac")}
+    if cd["material"] == "UZr" and mods:
+        z = mods.get("ZR_wt_frac", 0.10)
+        e = mods.get("U235_wt_frac", 0.10)
+        base = dict(base)
+        base.update({"ZR": z, "U235": e * (1.0 - z), "U238": (1.0 - e) * (1.0 - z)})
+    return base, mods
+
+
+def iso_signature(a):
+    sig = {}
+    for k, b in enumerate(a):
+        for c in b:
+            if c.name in ("fuel", "slug"):
+                sig[(k, c.name)] = tuple(round(v, 14) for v in group3(c.material.massFrac).values()) + \
+                    tuple(round(v, 14) for v in group3(c.getNumberDensities()).values())
+    return sig
+
+
+def run_isotopics(ctx):
+    from armi import settings
+    from armi.nucDirectory import nucDir
+    from armi.reactor import blueprints, reactors
+    rng = ctx.rng
+    cs = settings.Settings().modified(newSettings={"power": 1e6, "nCycles": 1, "burnSteps": 1})
+    with common.scratch_dir("c18iso-"):
+        for t in range(ctx.pick(40, 400)):
+            doc = gen_iso_doc(rng)
+            text = iso_yaml(doc)
+            tag = f"iso#{t}"
+            case0 = {"tag": tag, "yaml": text[:4000]}
+            try:
+                bp = blueprints.Blueprints.load(io.StringIO(text))
+                first = {n: (group3(v.massFracs), dict(v), v.density) for n, v in bp.customIsotopics.items()}
+                built = {}
+                for rep in range(3):
+                    for an in doc["assems"]:
+                        built.setdefault(an, []).append(bp.constructAssem(cs, name=an))
+            except Exception as e:
+                fail_few(ctx, "bp-wellformed-refused", "a well-formed blueprint builds", case0, observed=f"{type(e).__name__}: {e}"[:300])
+                continue
+            # the parsed custom isotopics say what the text says, and construction leaves them alone
+            for n, iso in doc["isos"].items():
+                exp = group3(iso_massfracs(iso))
+                got0 = first[n][0]
+                if any(abs(got0[x] - exp[x]) > 1e-12 for x in exp):
+                    fail_few(ctx, "bp-custom-isotopic-parsed", "a custom isotopic vector has the composition its text describes",
+                             {**case0, "isotopic": n}, observed=got0, expected=exp)
+                now = bp.customIsotopics[n]
+                if (group3(now.massFracs), dict(now), now.density) != first[n]:
+                    fail_few(ctx, "bp-custom-isotopics-mutated", "construction leaves the blueprint's custom isotopics unchanged",
+                             {**case0, "isotopic": n}, observed=[group3(now.massFracs), dict(now)], expected=list(first[n][:2]))
+            # per component composition
+            for an, ad in doc["assems"].items():
+                sigs = [iso_signature(a) for a in built[an]]
+                if any(sg != sigs[0] for sg in sigs[1:]):
+                    fail_few(ctx, "bp-nondeterministic", "construction is deterministic (1st, 2nd, 3rd assembly of a design agree)", {**case0, "design": an})
+                a = built[an][0]
+                for k, (b, bt) in enumerate(zip(a, ad["blocks"])):
+                    for c in b:
+                        if c.name not in ("fuel", "slug"):
+                            continue
+                        cd = doc["blocks"][bt][c.name]
+                        iso = doc["isos"][cd["isotopics"]]
+                        exp, mods = expected_iso_composition(doc, ad, k, bt, c.name)
+                        case = {**case0, "design": an, "block": k, "type": bt, "component": c.name, "material": cd["material"],
+                                "isotopics": cd["isotopics"], "form": iso["form"], "mods": mods}
+                        got = group3(c.material.massFrac)
+                        if any(abs(got[x] - exp[x]) > 1e-12 for x in exp):
+                            fail_few(ctx, "bp-composition:custom-isotopics",
+                                     "composition after the requested material modifications and isotopic overrides", case, observed=got, expected=exp)
+                        nd = group3(c.getNumberDensities())
+                        A = {x: nucDir.getAtomicWeight(x) for x in ("U235", "U238")}
+                        heavy = nd["U235"] * A["U235"] + nd["U238"] * A["U238"]
+                        if heavy > 0 and exp["U235"] + exp["U238"] > 0:
+                            enr = nd["U235"] * A["U235"] / heavy
+                            enr_exp = exp["U235"] / (exp["U235"] + exp["U238"])
+                            if abs(enr - enr_exp) > 1e-9:
+                                fail_few(ctx, "bp-composition:custom-isotopics", "the component's nuclide inventory has the described enrichment",
+                                         case, observed=enr, expected=enr_exp)
+                        if cd["material"] == "Custom" and iso["form"] == "number densities":
+                            for x in ISO_NUCS:
+                                if abs(nd[x] - iso["vals"][x]) > 1e-12 + 1e-9 * abs(iso["vals"][x]):
+                                    fail_few(ctx, "bp-custom-number-densities", "a Custom material given number densities has exactly those", case,
+                                             observed=nd, expected=iso["vals"])
+                        if iso["density"] is not None and cd["Tinput"] == cd["Thot"] and not mods:
+                            if abs(c.density() - iso["density"]) > 1e-9 * iso["density"]:
+                                fail_few(ctx, "bp-custom-density", "a custom isotopic with a density gives the component that density", case,
+                                         observed=c.density(), expected=iso["density"])
+                        ctx.count(f"custom-isotopic components checked ({cd['material']}, {iso['form']}, "
+                                  f"{'density' if iso['density'] is not None else 'no density'}, {'modified' if mods else 'unmodified'})")
+            # order independence: the same document with the assembly designs defined in the opposite order
+            try:
+                bp2 = blueprints.Blueprints.load(io.StringIO(iso_yaml(doc, reverse_assemblies=True)))
+                for an in doc["assems"]:
+                    if iso_signature(bp2.constructAssem(cs, name=an)) != iso_signature(built[an][0]):
+                        fail_few(ctx, "bp-composition-order-dependent",
+                                 "building the assembly designs in a different order gives the same per-component compositions", {**case0, "design": an})
+                r = reactors.factory(cs, blueprints.Blueprints.load(io.StringIO(text)))
+                for a in r.core:
+                    if iso_signature(a) != iso_signature(built[a.getType()][0]):
+                        fail_few(ctx, "bp-composition-order-dependent", "assemblies in the core have the compositions of their designs",
+                                 {**case0, "design": a.getType()})
+            except Exception as e:
+                fail_few(ctx, "bp-wellformed-refused", "a well-formed blueprint builds", case0, observed=f"{type(e).__name__}: {e}"[:300])
+            ctx.case(("iso", text), nontrivial=True, sample={"tag": tag, "isotopics": {n: v["form"] for n, v in doc["isos"].items()}} if t == 0 else None)
+
+
 # =========================================================================== entry points
 def limit_failures(ctx, per_key=3):
     """Ctx keeps the first 200 failures only: keep a few per key so that no key is crowded out by another."""
@@ -1182,6 +1391,7 @@ def run(ctx):
         run_ascii(ctx)
         run_grids(ctx)
         run_blueprints(ctx)
+        run_isotopics(ctx)
 
 
 def search(ctx, disagreements, broken):
